@@ -13,6 +13,7 @@ From Coq Require Import NArith List FMapPositive Lia Permutation.
 From LibaV Require Import C05.DListDefs.
 Import ListNotations.
 Local Open Scope N_scope.
+Notation hd0 := (@hd id 0%N).
 
 (* ------------------------------------------------------------------ list helpers *)
 Lemma NoDup_app_l {A} (l1 l2 : list A) : NoDup (l1 ++ l2) -> NoDup l1.
@@ -635,4 +636,561 @@ Proof.
   - eapply edge_Frame; eauto; apply D.
     + destruct t; [left; reflexivity|]. right. apply in_last. congruence.
     + left; reflexivity.
+Qed.
+
+(* ------------------------------------------------------------------ small tools *)
+Ltac perm_tac :=
+  cbn [app];
+  lazymatch goal with
+  | |- Permutation nil nil => apply perm_nil
+  | |- Permutation (?a :: ?l) ?r =>
+      let T := type of a in
+      let rec go pre post :=
+        lazymatch post with
+        | a :: ?post' => change r with (pre ++ a :: post'); apply Permutation_cons_app; perm_tac
+        | ?x :: ?post' => go (pre ++ [x]) post'
+        end in
+      go (@nil T) r
+  end.
+
+Lemma hd_snoc {A} (l : list A) c d : hd d (l ++ [c]) = hd c l.
+Proof. destruct l; reflexivity. Qed.
+
+Lemma Soup_cons h p ps :
+  Soup h ps -> Piece h p -> NoDup p -> (forall x, In x p -> ~ In x (concat ps)) -> Soup h (p :: ps).
+Proof.
+  intros [N F] Pp Np D. split; [|constructor; auto].
+  simpl. clear F Pp. induction p as [|a p IH]; simpl; auto.
+  inversion Np; subst. constructor.
+  - intros H. apply in_app_or in H. destruct H as [H|H]; [auto|]. apply (D a); simpl; auto.
+  - apply IH; auto. intros x Hx. apply D. right. exact Hx.
+Qed.
+
+Lemma Soup_app h ps qs :
+  Soup h ps -> Soup h qs -> (forall x, In x (concat ps) -> ~ In x (concat qs)) -> Soup h (ps ++ qs).
+Proof.
+  intros [N1 F1] [N2 F2] D. split; [|apply Forall_app; auto].
+  rewrite concat_app. clear F1 F2. induction (concat ps) as [|a l IH]; simpl; auto.
+  inversion N1; subst. constructor.
+  - intros H. apply in_app_or in H. destruct H as [H|H]; [auto|]. apply (D a); simpl; auto.
+  - apply IH; auto. intros x Hx. apply D. right. exact Hx.
+Qed.
+
+Lemma Soup_single_ring h l : Ring h l -> Soup h [l].
+Proof. apply Ring_Soup. Qed.
+
+Lemma Soup_NoDup h ps : Soup h ps -> NoDup (concat ps).
+Proof. intros [N _]; exact N. Qed.
+
+Lemma Soup_pick h ps p : Soup h ps -> In p ps -> Soup h [p].
+Proof.
+  intros [N F] Hp. split.
+  - simpl. rewrite app_nil_r. eapply NoDup_concat_in; eauto.
+  - rewrite Forall_forall in F. constructor; auto.
+Qed.
+
+(* ------------------------------------------------------------------ a_list_add_ and friends *)
+(* the general fact: two detached pieces (whole chains) are closed into one ring *)
+Lemma add__soup h l1 l2 r :
+  Soup h (l1 :: l2 :: r) -> l1 <> [] -> l2 <> [] ->
+  exists h', l_add_ h (hd0 l1) (last l1 0) (hd0 l2) (last l2 0) = Some h' /\
+    Soup h' ((l1 ++ l2) :: r) /\ edge h' (last l2 0) (hd0 l1) /\
+    Frame h h' [last l1 0; hd0 l2; last l2 0; hd0 l1] /\ (forall x, live h' x <-> live h x).
+Proof.
+  intros S H1 H2. unfold l_add_.
+  assert (La : live h (last l1 0)) by (eapply Soup_live; eauto; [left; reflexivity|apply in_last; auto]).
+  assert (Lb : live h (hd0 l2)) by (eapply Soup_live; eauto; [right; left; reflexivity|apply in_hd; auto]).
+  destruct (link_spec h _ _ La Lb) as (h1 & E1 & P1). rewrite E1.
+  pose proof (Soup_join' _ _ _ _ _ _ S H1 H2 P1) as S1.
+  assert (Lc : live h1 (last l2 0)).
+  { apply (lp_live _ _ _ _ P1). eapply Soup_live; eauto; [right; left; reflexivity|apply in_last; auto]. }
+  assert (Ld : live h1 (hd0 l1)).
+  { apply (lp_live _ _ _ _ P1). eapply Soup_live; eauto; [left; reflexivity|apply in_hd; auto]. }
+  destruct (link_spec h1 _ _ Lc Ld) as (h2 & E2 & P2). rewrite E2.
+  exists h2. split; [reflexivity|].
+  assert (Hne : l1 ++ l2 <> []) by (destruct l1; simpl; congruence).
+  split; [|split; [|split]].
+  - eapply (Soup_close' _ _ _ _ 0); eauto.
+    rewrite last_app_nonnil, hd_app_nonnil by assumption. exact P2.
+  - eapply edge_new; eauto.
+  - eapply Frame_incl; [eapply Frame_trans; eapply LinkPost_frame; eauto|].
+    intros x Hx; simpl in *; tauto.
+  - intros x. rewrite (lp_live _ _ _ _ P2). apply (lp_live _ _ _ _ P1).
+Qed.
+
+Lemma add__ring h l1 l2 :
+  Soup h [l1; l2] -> l1 <> [] -> l2 <> [] ->
+  exists h', l_add_ h (hd0 l1) (last l1 0) (hd0 l2) (last l2 0) = Some h' /\
+    Ring h' (l1 ++ l2) /\
+    Frame h h' [last l1 0; hd0 l2; last l2 0; hd0 l1] /\ (forall x, live h' x <-> live h x).
+Proof.
+  intros S H1 H2. destruct (add__soup _ _ _ _ S H1 H2) as (h' & E & S' & Ed & F & L).
+  exists h'. split; [exact E|]. split; [|split; assumption].
+  apply (Ring_intro _ _ 0); auto.
+  - destruct l1; simpl; congruence.
+  - rewrite last_app_nonnil, hd_app_nonnil by assumption. exact Ed.
+Qed.
+
+Lemma Soup_ring_and_node h l n : Ring h l -> live h n -> ~ In n l -> Soup h [l; [n]].
+Proof.
+  intros R L Hn. apply (Soup_perm h [[n]; l]); [perm_tac|].
+  apply Soup_cons; [apply Ring_Soup; exact R|apply Piece_single; exact L|repeat constructor; simpl; tauto|].
+  intros x [<-|[]]. simpl. rewrite app_nil_r. exact Hn.
+Qed.
+
+(* a_list_add_next(c, n): n is inserted right after c *)
+Lemma add_next_spec h c xs n :
+  Ring h (c :: xs) -> live h n -> ~ In n (c :: xs) ->
+  exists h', l_add_next h c n = Some h' /\ Ring h' (c :: n :: xs) /\
+    Frame h h' [c; n; hd c xs] /\ (forall x, live h' x <-> live h x).
+Proof.
+  intros R L Hn. unfold l_add_next.
+  rewrite (Ring_next h [] c xs R). cbn [hd].
+  pose proof (Ring_rot1 _ _ _ R) as R1.
+  assert (S : Soup h [xs ++ [c]; [n]]).
+  { apply Soup_ring_and_node; auto. intros H. apply Hn. apply in_app_or in H. simpl in *. tauto. }
+  destruct (add__ring h (xs ++ [c]) [n] S) as (h' & E & R' & F & Lv).
+  { destruct xs; simpl; congruence. } { congruence. }
+  rewrite hd_snoc, last_last in E. cbn [hd last] in E.
+  exists h'. split; [exact E|]. split; [|split; [|exact Lv]].
+  - rewrite <- app_assoc in R'. apply (Ring_rot h' xs [c; n]) in R'. exact R'.
+  - eapply Frame_incl; eauto. rewrite hd_snoc, last_last. intros x Hx; simpl in *; tauto.
+Qed.
+
+(* a_list_add_prev(c, n): n is inserted right before c, i.e. at the end of c :: xs *)
+Lemma add_prev_spec h c xs n :
+  Ring h (c :: xs) -> live h n -> ~ In n (c :: xs) ->
+  exists h', l_add_prev h c n = Some h' /\ Ring h' (c :: xs ++ [n]) /\
+    Frame h h' [c; n; last xs c] /\ (forall x, live h' x <-> live h x).
+Proof.
+  intros R L Hn. unfold l_add_prev.
+  rewrite (Ring_prev h [] c xs R). cbn [last].
+  assert (S : Soup h [c :: xs; [n]]) by (apply Soup_ring_and_node; auto).
+  destruct (add__ring h (c :: xs) [n] S) as (h' & E & R' & F & Lv); try congruence.
+  rewrite last_cons_default in E. cbn [hd last] in E.
+  exists h'. split; [exact E|]. split; [|split; [|exact Lv]].
+  - exact R'.
+  - eapply Frame_incl; eauto. rewrite last_cons_default. intros x Hx; simpl in *; tauto.
+Qed.
+
+(* a_list_add_node(hd, tl, n) on a ring opened between tl and hd *)
+Lemma add_node_spec h c xs n :
+  Ring h (c :: xs) -> live h n -> ~ In n (c :: xs) ->
+  exists h', l_add_node h c (last xs c) n = Some h' /\ Ring h' (c :: xs ++ [n]) /\
+    Frame h h' [c; n; last xs c] /\ (forall x, live h' x <-> live h x).
+Proof.
+  intros R L Hn. unfold l_add_node.
+  assert (S : Soup h [c :: xs; [n]]) by (apply Soup_ring_and_node; auto).
+  destruct (add__ring h (c :: xs) [n] S) as (h' & E & R' & F & Lv); try congruence.
+  rewrite last_cons_default in E. cbn [hd last] in E.
+  exists h'. split; [exact E|]. split; [|split; [|exact Lv]].
+  - exact R'.
+  - eapply Frame_incl; eauto. rewrite last_cons_default. intros x Hx; simpl in *; tauto.
+Qed.
+
+(* ------------------------------------------------------------------ a_list_del_ and friends *)
+(* a section s of the ring s ++ rest is taken out; it stays a piece with its inner links intact *)
+Lemma del__spec h s rest :
+  Ring h (s ++ rest) -> s <> [] -> rest <> [] ->
+  exists h', l_del_ h (hd0 s) (last s 0) = Some h' /\ Ring h' rest /\ Soup h' [rest; s] /\
+    Frame h h' [last rest 0; hd0 rest] /\ (forall x, live h' x <-> live h x).
+Proof.
+  intros R Hs Hr. unfold l_del_.
+  assert (Ep : rd_prev h (hd0 s) = Some (last rest 0)).
+  { destruct s as [|a s]; [congruence|]. simpl in R. cbn [hd]. rewrite (Ring_prev h [] a (s ++ rest) R).
+    cbn [last]. rewrite last_app_nonnil by assumption.
+    destruct (snoc_cases rest) as [->|(m & z & ->)]; [congruence|]. rewrite !last_last. reflexivity. }
+  assert (En : rd_next h (last s 0) = Some (hd0 rest)).
+  { destruct (snoc_cases s) as [->|(m & z & ->)]; [congruence|]. rewrite last_last.
+    rewrite <- app_assoc in R. simpl in R. rewrite (Ring_next h m z rest R).
+    destruct rest; [congruence|reflexivity]. }
+  rewrite Ep, En.
+  apply Ring_rot in R. pose proof (Soup_split _ _ _ _ (Ring_Soup _ _ R)) as S.
+  assert (La : live h (last rest 0)) by (eapply Soup_live; eauto; [left; reflexivity|apply in_last; auto]).
+  assert (Lb : live h (hd0 rest)) by (eapply Soup_live; eauto; [left; reflexivity|apply in_hd; auto]).
+  destruct (link_spec h _ _ La Lb) as (h' & E & P). rewrite E.
+  exists h'. split; [reflexivity|].
+  pose proof (Soup_close' _ _ _ _ 0 S Hr P) as S'.
+  split; [|split; [exact S'|split; [|apply (lp_live _ _ _ _ P)]]].
+  - apply (Ring_intro _ _ 0); auto.
+    + assert (S2 : Soup h' [s; rest]) by (apply (Soup_perm h' [rest; s]); [perm_tac|exact S']).
+      eapply Soup_drop; exact S2.
+    + eapply edge_new; eauto.
+  - apply LinkPost_frame; auto.
+Qed.
+
+(* ------------------------------------------------------------------ executing links on a soup *)
+Lemma Soup_join_exec h p q r :
+  Soup h (p :: q :: r) -> p <> [] -> q <> [] ->
+  exists h', l_link h (last p 0) (hd0 q) = Some h' /\ Soup h' ((p ++ q) :: r) /\
+             LinkPost h (last p 0) (hd0 q) h'.
+Proof.
+  intros S Hp Hq.
+  assert (La : live h (last p 0)) by (eapply Soup_live; eauto; [left; reflexivity|apply in_last; auto]).
+  assert (Lb : live h (hd0 q)) by (eapply Soup_live; eauto; [right; left; reflexivity|apply in_hd; auto]).
+  destruct (link_spec h _ _ La Lb) as (h' & E & P). exists h'. split; [exact E|]. split; [|exact P].
+  eapply Soup_join'; eauto.
+Qed.
+
+Lemma Soup_close_exec h p r :
+  Soup h (p :: r) -> p <> [] ->
+  exists h', l_link h (last p 0) (hd0 p) = Some h' /\ Soup h' (p :: r) /\ edge h' (last p 0) (hd0 p) /\
+             LinkPost h (last p 0) (hd0 p) h'.
+Proof.
+  intros S Hp.
+  assert (La : live h (last p 0)) by (eapply Soup_live; eauto; [left; reflexivity|apply in_last; auto]).
+  assert (Lb : live h (hd0 p)) by (eapply Soup_live; eauto; [left; reflexivity|apply in_hd; auto]).
+  destruct (link_spec h _ _ La Lb) as (h' & E & P). exists h'. split; [exact E|].
+  split; [|split; [eapply edge_new; eauto|exact P]].
+  eapply Soup_close'; eauto.
+Qed.
+
+(* the edge across a seam inside a ring, and the wrap-around edge *)
+Lemma Ring_seam h l1 p q l2 :
+  Ring h (l1 ++ p ++ q ++ l2) -> p <> [] -> q <> [] -> edge h (last p 0) (hd0 q).
+Proof.
+  intros R Hp Hq. destruct (snoc_cases p) as [->|(m & z & ->)]; [congruence|].
+  destruct q as [|y q]; [congruence|]. rewrite last_last. cbn [hd].
+  apply (Ring_edge_mid h (l1 ++ m) z y (q ++ l2)).
+  rewrite <- !app_assoc in *. cbn [app] in *. exact R.
+Qed.
+
+Lemma Ring_seam_wrap h p mid q :
+  Ring h (p ++ mid ++ q) -> p <> [] -> q <> [] -> edge h (last q 0) (hd0 p).
+Proof.
+  intros R Hp Hq. pose proof (Ring_wrap _ _ 0 R) as E.
+  rewrite hd_app_nonnil in E by assumption.
+  rewrite app_assoc, last_app_nonnil in E by assumption. exact E.
+Qed.
+
+Lemma LinkPost_Frame_in h a b h' S : LinkPost h a b h' -> In a S -> In b S -> Frame h h' S.
+Proof.
+  intros P Ha Hb. eapply Frame_incl; [eapply LinkPost_frame; eauto|].
+  intros x [<-|[<-|[]]]; auto.
+Qed.
+
+(* ------------------------------------------------------------------ del: remaining cases *)
+Lemma del__whole h s :
+  Ring h s ->
+  exists h', l_del_ h (hd0 s) (last s 0) = Some h' /\ Ring h' s /\
+    Frame h h' [last s 0; hd0 s] /\ (forall x, live h' x <-> live h x).
+Proof.
+  intros R. pose proof (Ring_nonnil _ _ R) as Hs. pose proof (Ring_wrap _ _ 0 R) as [En Ep].
+  destruct (Soup_close_exec h s [] (Ring_Soup _ _ R) Hs) as (h' & E & S' & Ed & P).
+  exists h'. split. unfold l_del_; rewrite Ep, En; exact E.
+  split; [|split; [|apply (lp_live _ _ _ _ P)]].
+  - eapply Ring_intro; eauto.
+  - apply LinkPost_frame; auto.
+Qed.
+
+(* a_list_del_node(n): n leaves the ring; its own two fields are not touched *)
+Lemma del_node_spec h l1 n l2 :
+  Ring h (l1 ++ n :: l2) -> l1 ++ l2 <> [] ->
+  exists h', l_del_node h n = Some h' /\ Ring h' (l1 ++ l2) /\ dget h' n = dget h n /\
+    Frame h h' (l1 ++ l2) /\ (forall x, live h' x <-> live h x).
+Proof.
+  intros R Hne. pose proof (Ring_NoDup _ _ R) as ND.
+  apply (Ring_rot h l1 (n :: l2)) in R. cbn [app] in R.
+  assert (Hne' : l2 ++ l1 <> []) by (destruct l1, l2; simpl in *; congruence).
+  destruct (del__spec h [n] (l2 ++ l1) R) as (h' & E & R' & S' & F & Lv); try congruence.
+  unfold l_del_node. cbn [hd last] in E. exists h'. split; [exact E|].
+  assert (Hin : forall x, In x [last (l2 ++ l1) 0; hd0 (l2 ++ l1)] -> In x (l1 ++ l2)).
+  { intros x [<-|[<-|[]]].
+    - pose proof (in_last (l2 ++ l1) 0 Hne') as H. apply in_app_or in H. apply in_or_app. tauto.
+    - pose proof (in_hd (l2 ++ l1) 0 Hne') as H. apply in_app_or in H. apply in_or_app. tauto. }
+  split; [|split; [|split; [|exact Lv]]].
+  - apply Ring_rot. exact R'.
+  - apply F. intros H. apply Hin in H. apply NoDup_remove_2 in ND. contradiction.
+  - eapply Frame_incl; eauto.
+Qed.
+
+(* a_list_init on a node that exists *)
+Lemma init_ring h c :
+  live h c ->
+  exists h', l_init h c = Some h' /\ Ring h' [c] /\ Frame h h' [c] /\ (forall x, live h' x <-> live h x).
+Proof.
+  intros L. destruct (init_spec h c L) as (h' & E & P). exists h'. split; [exact E|].
+  split; [|split; [|apply (lp_live _ _ _ _ P)]].
+  - apply Ring_single; [apply (lp_live _ _ _ _ P); exact L|eapply edge_new; eauto].
+  - eapply LinkPost_Frame_in; eauto; left; reflexivity.
+Qed.
+
+(* ------------------------------------------------------------------ del_next / del_prev *)
+Lemma del_next_spec h c n xs :
+  Ring h (c :: n :: xs) ->
+  exists h', l_del_next h c = Some h' /\ Ring h' (c :: xs) /\ dget h' n = dget h n /\
+    Frame h h' (c :: xs) /\ (forall x, live h' x <-> live h x).
+Proof.
+  intros R. unfold l_del_next. rewrite (Ring_next h [] c (n :: xs) R). cbn [hd].
+  apply (del_node_spec h [c] n xs R). discriminate.
+Qed.
+
+Lemma del_prev_spec h c xs n :
+  Ring h (c :: xs ++ [n]) ->
+  exists h', l_del_prev h c = Some h' /\ Ring h' (c :: xs) /\ dget h' n = dget h n /\
+    Frame h h' (c :: xs) /\ (forall x, live h' x <-> live h x).
+Proof.
+  intros R. unfold l_del_prev. rewrite (Ring_prev h [] c (xs ++ [n]) R). cbn [last]. rewrite last_last.
+  destruct (del_node_spec h (c :: xs) n [] R) as (h' & E & R' & D & F & Lv); [discriminate|].
+  rewrite app_nil_r in *. exists h'. auto.
+Qed.
+
+(* ------------------------------------------------------------------ set_ / set_node *)
+(* the section s1 of the ring s1 ++ rest is replaced by the whole chain l2 *)
+Lemma set__spec h s1 rest l2 :
+  Ring h (s1 ++ rest) -> Soup h [s1 ++ rest; l2] -> s1 <> [] -> rest <> [] -> l2 <> [] ->
+  exists h', l_set_ h (hd0 s1) (last s1 0) (hd0 l2) (last l2 0) = Some h' /\
+    Ring h' (l2 ++ rest) /\ Soup h' [l2 ++ rest; s1] /\
+    Frame h h' (rest ++ l2) /\ (forall x, live h' x <-> live h x).
+Proof.
+  intros R S H1 Hr H2.
+  assert (Ea : rd_next h (last s1 0) = Some (hd0 rest)).
+  { apply (Ring_seam h [] s1 rest []); auto. rewrite app_nil_r. exact R. }
+  assert (Eb : rd_prev h (hd0 s1) = Some (last rest 0)).
+  { apply (Ring_seam_wrap h s1 [] rest); auto. }
+  assert (S3 : Soup h [rest; l2; s1]).
+  { apply Soup_split in S. apply (Soup_perm h [s1; rest; l2]); [perm_tac|exact S]. }
+  destruct (add__soup h rest l2 [s1] S3 Hr H2) as (h' & E & S' & Ed & F & Lv).
+  exists h'. split; [unfold l_set_; rewrite Ea, Eb; exact E|].
+  assert (R' : Ring h' (rest ++ l2)).
+  { apply (Ring_intro _ _ 0).
+    - eapply Soup_pick; [exact S'|left; reflexivity].
+    - destruct rest; simpl; congruence.
+    - rewrite last_app_nonnil, hd_app_nonnil by assumption. exact Ed. }
+  split; [apply Ring_rot; exact R'|]. split; [|split; [|exact Lv]].
+  - destruct S' as [N Fp]. split.
+    + simpl in *. rewrite app_nil_r in *. rewrite <- !app_assoc in *.
+      eapply Permutation_NoDup; [|exact N].
+      rewrite !app_assoc. apply Permutation_app_tail. apply Permutation_app_comm.
+    + inversion Fp; subst. constructor; auto. destruct H3 as [Sg Lf]. split.
+      * apply Ring_Seg. apply Ring_rot. exact R'.
+      * apply Forall_app in Lf. apply Forall_app. tauto.
+  - eapply Frame_incl; eauto. intros x Hx. apply in_or_app.
+    destruct Hx as [<-|[<-|[<-|[<-|[]]]]].
+    + left. apply in_last; auto.
+    + right. apply in_hd; auto.
+    + right. apply in_last; auto.
+    + left. apply in_hd; auto.
+Qed.
+
+Lemma set_node_spec h c rest r :
+  Ring h (c :: rest) -> live h r -> ~ In r (c :: rest) -> rest <> [] ->
+  exists h', l_set_node h c r = Some h' /\ Ring h' (r :: rest) /\ dget h' c = dget h c /\
+    Frame h h' (r :: rest) /\ (forall x, live h' x <-> live h x).
+Proof.
+  intros R L Hr Hne.
+  pose proof (Soup_ring_and_node h (c :: rest) r R L Hr) as S.
+  destruct (set__spec h [c] rest [r] R S) as (h' & E & R' & S' & F & Lv); try congruence.
+  exists h'. split; [exact E|]. split; [exact R'|]. split; [|split; [|exact Lv]].
+  - apply F. intros H. apply Hr. apply in_app_or in H. destruct H as [H|[<-|[]]].
+    + apply Ring_NoDup in R. inversion R; subst. contradiction.
+    + left; reflexivity.
+  - eapply Frame_incl; eauto. intros x Hx. apply in_app_or in Hx. simpl in *. tauto.
+Qed.
+
+(* ------------------------------------------------------------------ mov_next / mov_prev *)
+Lemma mov_next_spec h c xs r ys :
+  Ring h (c :: xs) -> Ring h (r :: ys) -> Soup h [c :: xs; r :: ys] -> ys <> [] ->
+  exists h', l_mov_next h c r = Some h' /\ Ring h' (c :: ys ++ xs) /\ dget h' r = dget h r /\
+    Frame h h' (c :: xs ++ ys) /\ (forall x, live h' x <-> live h x).
+Proof.
+  intros R1 R2 S Hy.
+  assert (Ea : rd_next h c = Some (hd0 (xs ++ [c]))) by (rewrite hd_snoc; apply (Ring_next h [] c xs R1)).
+  assert (Eb : rd_next h r = Some (hd0 ys)).
+  { rewrite (Ring_next h [] r ys R2). destruct ys; [congruence|reflexivity]. }
+  assert (Ed : rd_prev h r = Some (last ys 0)).
+  { rewrite (Ring_prev h [] r ys R2). cbn [last]. destruct (snoc_cases ys) as [->|(m & z & ->)]; [congruence|].
+    rewrite !last_last. reflexivity. }
+  assert (S3 : Soup h [xs ++ [c]; ys; [r]]).
+  { destruct S as [N Fp]. inversion Fp as [|? ? P1 Fp1]; subst. inversion Fp1 as [|? ? P2 _]; subst.
+    split.
+    - eapply Permutation_NoDup; [|exact N]. simpl. rewrite !app_nil_r.
+      change (c :: xs ++ r :: ys) with ((c :: xs) ++ [r] ++ ys).
+      rewrite <- !app_assoc. 
+      eapply perm_trans; [apply Permutation_app; [apply (Permutation_app_comm [c] xs)|apply (Permutation_app_comm [r] ys)]|].
+      rewrite <- !app_assoc. reflexivity.
+    - pose proof (Ring_rot1 _ _ _ R1) as R1'. apply Ring_Soup in R1'. destruct R1' as [_ F1].
+      inversion F1; subst. constructor; auto.
+      change (r :: ys) with ([r] ++ ys) in P2. apply Piece_app_inv in P2. destruct P2. auto. }
+  assert (Hx : xs ++ [c] <> []) by (destruct xs; simpl; congruence).
+  destruct (add__soup h (xs ++ [c]) ys [[r]] S3 Hx Hy) as (h' & E & S' & Ee & F & Lv).
+  rewrite last_last in *.
+  exists h'. split; [unfold l_mov_next; rewrite Ea, Eb, Ed; exact E|].
+  split; [|split; [|split; [|exact Lv]]].
+  - assert (R' : Ring h' ((xs ++ [c]) ++ ys)).
+    { apply (Ring_intro _ _ 0).
+      - eapply Soup_pick; [exact S'|left; reflexivity].
+      - destruct xs; simpl; congruence.
+      - rewrite last_app_nonnil, hd_app_nonnil by assumption. exact Ee. }
+    rewrite <- app_assoc in R'. apply (Ring_rot h' xs ([c] ++ ys)) in R'. exact R'.
+  - apply F. destruct S3 as [N _]. simpl in N.
+    intros H. assert (In r ((xs ++ [c]) ++ ys)).
+    { apply in_or_app. destruct H as [<-|[<-|[<-|[<-|[]]]]].
+      - left. apply in_or_app. right. left. reflexivity.
+      - right. apply in_hd; auto.
+      - right. apply in_last; auto.
+      - left. apply in_hd; auto. }
+    rewrite app_assoc in N. eapply NoDup_app_disj; eauto. left; reflexivity.
+  - eapply Frame_incl; eauto. intros x Hx'.
+    destruct Hx' as [<-|[<-|[<-|[<-|[]]]]].
+    + left; reflexivity.
+    + right. apply in_or_app. right. apply in_hd; auto.
+    + right. apply in_or_app. right. apply in_last; auto.
+    + rewrite hd_snoc. destruct xs; simpl; auto.
+Qed.
+
+Lemma mov_prev_spec h c xs r ys :
+  Ring h (c :: xs) -> Ring h (r :: ys) -> Soup h [c :: xs; r :: ys] -> ys <> [] ->
+  exists h', l_mov_prev h c r = Some h' /\ Ring h' (c :: xs ++ ys) /\ dget h' r = dget h r /\
+    Frame h h' (c :: xs ++ ys) /\ (forall x, live h' x <-> live h x).
+Proof.
+  intros R1 R2 S Hy.
+  assert (Ea : rd_prev h c = Some (last (c :: xs) 0)).
+  { rewrite last_cons_default. apply (Ring_prev h [] c xs R1). }
+  assert (Eb : rd_next h r = Some (hd0 ys)).
+  { rewrite (Ring_next h [] r ys R2). destruct ys; [congruence|reflexivity]. }
+  assert (Ed : rd_prev h r = Some (last ys 0)).
+  { rewrite (Ring_prev h [] r ys R2). cbn [last]. destruct (snoc_cases ys) as [->|(m & z & ->)]; [congruence|].
+    rewrite !last_last. reflexivity. }
+  assert (S3 : Soup h [c :: xs; ys; [r]]).
+  { apply (Soup_perm h [[r]; ys; c :: xs]); [perm_tac|]. apply (Soup_split h [r] ys).
+    apply (Soup_perm h [c :: xs; r :: ys]); [perm_tac|exact S]. }
+  destruct (add__soup h (c :: xs) ys [[r]] S3) as (h' & E & S' & Ee & F & Lv); [congruence|exact Hy|].
+  exists h'. split; [unfold l_mov_prev; rewrite Ea, Eb, Ed; exact E|].
+  split; [|split; [|split; [|exact Lv]]].
+  - apply (Ring_intro _ _ 0).
+    + eapply Soup_pick; [exact S'|left; reflexivity].
+    + discriminate.
+    + change (c :: xs ++ ys) with ((c :: xs) ++ ys). rewrite last_app_nonnil by assumption. exact Ee.
+  - apply F. destruct S3 as [N _]. simpl in N.
+    intros H. assert (In r ((c :: xs) ++ ys)).
+    { apply in_or_app. destruct H as [<-|[<-|[<-|[<-|[]]]]].
+      - left. apply in_last. discriminate.
+      - right. apply in_hd; auto.
+      - right. apply in_last; auto.
+      - left. left. reflexivity. }
+    change (c :: xs ++ ys ++ [r]) with ((c :: xs) ++ ys ++ [r]) in N. rewrite app_assoc in N.
+    eapply NoDup_app_disj; eauto. left; reflexivity.
+  - eapply Frame_incl; eauto. intros x Hx'.
+    change (c :: xs ++ ys) with ((c :: xs) ++ ys). apply in_or_app.
+    destruct Hx' as [<-|[<-|[<-|[<-|[]]]]].
+    + left. apply in_last. discriminate.
+    + right. apply in_hd; auto.
+    + right. apply in_last; auto.
+    + left. left. reflexivity.
+Qed.
+
+(* moving an empty list: the source sentinel itself is spliced in (this is what the code does) *)
+Lemma mov_next_empty h c xs r :
+  Ring h (c :: xs) -> Ring h [r] -> ~ In r (c :: xs) ->
+  exists h', l_mov_next h c r = Some h' /\ Ring h' (c :: r :: xs) /\
+    Frame h h' [c; r; hd c xs] /\ (forall x, live h' x <-> live h x).
+Proof.
+  intros R1 R2 Hr.
+  assert (L : live h r) by (eapply Ring_live; eauto; left; reflexivity).
+  destruct (add_next_spec h c xs r R1 L Hr) as (h' & E & R' & F & Lv).
+  exists h'. split; [|auto]. unfold l_mov_next, l_add_next in *.
+  rewrite (Ring_next h [] r [] R2), (Ring_prev h [] r [] R2). cbn [hd last]. exact E.
+Qed.
+
+Lemma mov_prev_empty h c xs r :
+  Ring h (c :: xs) -> Ring h [r] -> ~ In r (c :: xs) ->
+  exists h', l_mov_prev h c r = Some h' /\ Ring h' (c :: xs ++ [r]) /\
+    Frame h h' [c; r; last xs c] /\ (forall x, live h' x <-> live h x).
+Proof.
+  intros R1 R2 Hr.
+  assert (L : live h r) by (eapply Ring_live; eauto; left; reflexivity).
+  destruct (add_prev_spec h c xs r R1 L Hr) as (h' & E & R' & F & Lv).
+  exists h'. split; [|auto]. unfold l_mov_prev, l_add_prev in *.
+  rewrite (Ring_next h [] r [] R2), (Ring_prev h [] r [] R2). cbn [hd last]. exact E.
+Qed.
+
+(* ------------------------------------------------------------------ rot_next / rot_prev *)
+Lemma Frame_live h h' S x : Frame h h' S -> ~ In x S -> live h x -> live h' x.
+Proof. intros F Hx [n Hn]. exists n. rewrite F; auto. Qed.
+
+Lemma rot_next_spec h c xs n :
+  Ring h (c :: xs ++ [n]) ->
+  exists h', l_rot_next h c = Some h' /\ Ring h' (c :: n :: xs) /\
+    Frame h h' (c :: xs ++ [n]) /\ (forall x, live h' x <-> live h x).
+Proof.
+  intros R. pose proof (Ring_NoDup _ _ R) as ND.
+  assert (Ep : rd_prev h c = Some n).
+  { rewrite (Ring_prev h [] c (xs ++ [n]) R). cbn [last]. rewrite last_last. reflexivity. }
+  destruct (del_node_spec h (c :: xs) n [] R) as (h1 & E1 & R1 & D1 & F1 & L1); [discriminate|].
+  rewrite app_nil_r in *.
+  assert (Hn : ~ In n (c :: xs)).
+  { change (c :: xs ++ [n]) with ((c :: xs) ++ [n]) in ND. intros H.
+    eapply NoDup_app_disj; eauto. left; reflexivity. }
+  assert (Ln : live h1 n).
+  { apply L1. eapply Ring_live; eauto. right. apply in_or_app. right. left. reflexivity. }
+  destruct (add_next_spec h1 c xs n R1 Ln Hn) as (h2 & E2 & R2 & F2 & L2).
+  exists h2. split; [|split; [exact R2|split]].
+  - unfold l_rot_next. rewrite Ep. unfold l_del_node in E1. rewrite E1. exact E2.
+  - eapply Frame_incl; [eapply Frame_trans; eauto|].
+    intros x Hx. apply in_app_or in Hx. destruct Hx as [Hx|Hx].
+    + change (c :: xs ++ [n]) with ((c :: xs) ++ [n]). apply in_or_app. auto.
+    + destruct Hx as [<-|[<-|[<-|[]]]].
+      * left; reflexivity.
+      * right. apply in_or_app. right. left. reflexivity.
+      * destruct xs; simpl; auto.
+  - intros x. rewrite L2. apply L1.
+Qed.
+
+Lemma rot_prev_spec h c n xs :
+  Ring h (c :: n :: xs) ->
+  exists h', l_rot_prev h c = Some h' /\ Ring h' (c :: xs ++ [n]) /\
+    Frame h h' (c :: n :: xs) /\ (forall x, live h' x <-> live h x).
+Proof.
+  intros R. pose proof (Ring_NoDup _ _ R) as ND.
+  assert (En : rd_next h c = Some n) by (apply (Ring_next h [] c (n :: xs) R)).
+  destruct (del_node_spec h [c] n xs R) as (h1 & E1 & R1 & D1 & F1 & L1); [discriminate|].
+  cbn [app] in *.
+  assert (Hn : ~ In n (c :: xs)).
+  { inversion ND as [|? ? H1 H2]; subst. inversion H2; subst. simpl in *. intros [->|H]; tauto. }
+  assert (Ln : live h1 n).
+  { apply L1. eapply Ring_live; eauto. right. left. reflexivity. }
+  destruct (add_prev_spec h1 c xs n R1 Ln Hn) as (h2 & E2 & R2 & F2 & L2).
+  exists h2. split; [|split; [exact R2|split]].
+  - unfold l_rot_prev. rewrite En. unfold l_del_node in E1. rewrite E1. exact E2.
+  - eapply Frame_incl; [eapply Frame_trans; eauto|].
+    intros x Hx. apply in_app_or in Hx. destruct Hx as [Hx|Hx].
+    + simpl in *. tauto.
+    + destruct Hx as [<-|[<-|[<-|[]]]].
+      * left; reflexivity.
+      * right. left. reflexivity.
+      * destruct (snoc_cases xs) as [->|(m & z & ->)]; [left; reflexivity|].
+        rewrite last_last. right. right. apply in_or_app. right. left. reflexivity.
+  - intros x. rewrite L2. apply L1.
+Qed.
+
+(* on a ring of one node both rotations rewrite the same two pointers with the same values *)
+Lemma link_self h c : Ring h [c] -> exists h', l_link h c c = Some h' /\ Ring h' [c] /\ Frame h h' [c].
+Proof.
+  intros R. destruct (Soup_close_exec h [c] [] (Ring_Soup _ _ R)) as (h' & E & S' & Ed & P); [discriminate|].
+  cbn [hd last] in *. exists h'. split; [exact E|]. split.
+  - apply (Ring_intro _ _ 0); auto. discriminate.
+  - eapply LinkPost_Frame_in; eauto; left; reflexivity.
+Qed.
+
+Lemma rot_single h c :
+  Ring h [c] ->
+  (exists h', l_rot_next h c = Some h' /\ Ring h' [c] /\ Frame h h' [c]) /\
+  (exists h', l_rot_prev h c = Some h' /\ Ring h' [c] /\ Frame h h' [c]).
+Proof.
+  intros R.
+  pose proof (Ring_next h [] c [] R) as En. pose proof (Ring_prev h [] c [] R) as Ep. cbn [hd last] in *.
+  destruct (link_self h c R) as (h1 & E1 & R1 & F1).
+  pose proof (Ring_next h1 [] c [] R1) as En1. pose proof (Ring_prev h1 [] c [] R1) as Ep1. cbn [hd last] in *.
+  destruct (link_self h1 c R1) as (h2 & E2 & R2 & F2).
+  destruct (link_self h2 c R2) as (h3 & E3 & R3 & F3).
+  assert (F : Frame h h3 [c]).
+  { eapply Frame_incl; [eapply Frame_trans; [eapply Frame_trans|]; eauto|]. intros x Hx; simpl in *; tauto. }
+  split; exists h3.
+  - split; [|auto]. unfold l_rot_next, l_del_, l_add_.
+    repeat (first [rewrite Ep|rewrite En|rewrite E1|rewrite En1|rewrite Ep1|rewrite E2]; cbn beta iota).
+    exact E3.
+  - split; [|auto]. unfold l_rot_prev, l_del_, l_add_.
+    repeat (first [rewrite Ep|rewrite En|rewrite E1|rewrite En1|rewrite Ep1|rewrite E2]; cbn beta iota).
+    exact E3.
 Qed.
